@@ -727,6 +727,9 @@ let run_line ovf line =
         | "milu_wf" -> (match args with
             | [ h ] -> (match x_milu_parse (unhex h) with POk (e, _) -> if x_wf_lfb e then "WF" else "NOT-WF" | _ -> "SYNTAX")
             | _ -> "BAD-ARGS")
+        | "milu_wfsl" -> (match args with
+            | [ h ] -> (match x_milu_parse (unhex h) with POk (e, _) -> if x_wf_slb e then "SL" else "NOT-SL" | _ -> "SYNTAX")
+            | _ -> "BAD-ARGS")
         | "socks_req_read" -> socks_req_read args
         | "socks_req_write" -> socks_req_write args
         | "socks_resp_read" -> socks_resp_read args
